@@ -18,6 +18,8 @@ var c05Ops = []string{
 	"create-hooks", "create-hooks-slice", "save-new", "save-existing", "save-existing-upsert",
 	"update", "updates-struct", "updates-hooks", "delete", "delete-soft", "delete-hooks", "delete-hook-writes", "create-hook-writes", "update-hook-writes",
 	"create-assoc-full", "create-batches-session", "create-many2many", "delete-many2many-select", "create-many2many-full",
+	"create-polymorphic", "save-assoc-existing", "save-assoc-new-children", "updates-assoc-full", "delete-assoc-select-hasmany",
+	"create-back-reference", "create-slice-assoc", "save-hooks-existing",
 }
 
 func N_C05_Ops(tier int) int { return len(c05Ops) }
@@ -58,6 +60,25 @@ func H_C05_Ops(shape int) {
 		res = db.Session(&gorm.Session{FullSaveAssociations: true}).Create(&Speaker{Name: "s", Langs: []Lang{{ID: 4, Name: "go"}}})
 	case "delete-many2many-select":
 		res = db.Select("Langs").Delete(&Speaker{ID: 3, Name: "s"})
+	case "create-polymorphic":
+		res = db.Create(&Kid{Name: "k", Toys: []Toy{{Name: "t1"}, {Name: "t2"}}})
+	case "save-assoc-existing":
+		cid := uint(5)
+		res = db.Save(&Owner{ID: 3, Name: "o", CompanyID: &cid, Company: &Company{ID: 5, Name: "c"}, Pets: []Pet{{ID: 7, Name: "p"}}})
+	case "save-assoc-new-children":
+		res = db.Save(&Owner{ID: 3, Name: "o", Profile: Profile{Bio: "b"}, Pets: []Pet{{Name: "p1"}, {Name: "p2"}}})
+	case "updates-assoc-full":
+		res = db.Session(&gorm.Session{FullSaveAssociations: true}).Updates(&Owner{ID: 3, Name: "o", Pets: []Pet{{ID: 7, Name: "p"}}})
+	case "delete-assoc-select-hasmany":
+		res = db.Select("Pets").Delete(&Owner{ID: 3}) // one relation: gorm visits selected relations in map order
+	case "create-back-reference":
+		o := &HOrder{Name: "o"}
+		o.Items = []*HItem{{Name: "i1", Order: o}, {Name: "i2", Order: o}}
+		res = db.Create(o)
+	case "create-slice-assoc":
+		res = db.Create(&[]Owner{{Name: "o1", Pets: []Pet{{Name: "p1"}}}, {Name: "o2", Company: &Company{Name: "c"}}})
+	case "save-hooks-existing":
+		res = db.Save(&HRec{ID: 3, Name: "r", Kids: []HKid{{Name: "k"}}})
 	case "create-batches-3/2":
 		res = db.CreateInBatches(&[]Item{{Name: "a"}, {Name: "b"}, {Name: "c"}}, 2)
 	case "create-batches-4/3":
